@@ -272,6 +272,6 @@ func CoqCase(id, shards int, inline bool, steps []string) string {
 }
 
 // CoqStep prints one [ostep].
-func CoqStep(ops []Op, faults []string, qfail int, obs string) string {
-	return fmt.Sprintf("{| s_ops := %s; s_faults := %s; s_qfail := %s; s_obs := %s |}", CoqOps(ops), CoqFaults(faults), hx.N(qfail), obs)
+func CoqStep(restart bool, ops []Op, faults []string, qfail int, obs string) string {
+	return fmt.Sprintf("{| s_restart := %s; s_ops := %s; s_faults := %s; s_qfail := %s; s_obs := %s |}", hx.Bool(restart), CoqOps(ops), CoqFaults(faults), hx.N(qfail), obs)
 }
